@@ -30,9 +30,10 @@ def mk_query(prog, doms, classes=None, quant="an", **kw):
     used = q.pop("_used")
     q["vars"] = [q["vars"][i - 1] for i in used]
     q["varkeys"] = used          # identity of each variable in the declaration list (for sharing between queries)
-    if "declare" in kw and kw["declare"] == "random":
+    if "declare" in kw and kw["declare"] in ("random", "given"):
         order = list(range(1, len(q["vars"]) + 1))
-        _DECL_RNG.shuffle(order)
+        if kw["declare"] == "random":
+            _DECL_RNG.shuffle(order)
         q["declare"] = order
     return q
 
@@ -725,11 +726,11 @@ def _with_user_code(progs):
             or any(m in json.dumps(p["cond"]) for m in ('"n_ge"', '"n_plus"', '"is_small"'))]
 
 
-def _session_events(beh, nq):
+def _session_events(beh, nq, b3=False):
     evs = []
     for o in beh:
         if o["op"] == "drain":
-            evs.append(drain_ev(o["qi"]))
+            evs.append(dict(drain_ev(o["qi"]), b3=b3))
         elif o["op"] == "partial":
             evs.append({"op": "partial", "qi": o["qi"], "k": o["k"], "how": o["how"]})
         elif o["op"] == "raised":
@@ -782,8 +783,10 @@ def check_C04(tier, seed):
             nv = rng.choice((1, 2, 2, 3, 3))
             pool = user_code[nv] if needs_pred and rng.random() < 0.8 else progs[nv]
             W, doms = _world_and_doms(rng, nv, quick)
-            qs = [mk_query(rng.choice(pool), doms), mk_query(rng.choice(progs[nv]), doms)]
-            qc.add(W, qs, _session_events(b, 2), share_vars=rng.random() < 0.7)
+            qs = [mk_query(rng.choice(pool), doms, declare="given"), mk_query(rng.choice(progs[nv]), doms, declare="given")]
+            # caching is on throughout: stage B3 predicts the rows of every full evaluation of the history, starting
+            # from empty caches after an evaluation that did not run to completion
+            qc.add(W, qs, _session_events(b, 2, b3=True), share_vars=rng.random() < 0.7)
     # pairs of queries over three shared variables that compare variables directly (h == c.ref): what one evaluation
     # binds must not be visible to the next evaluation of another query over the same variables
     shared = run.export("GenQuery", "G3s", "PROG", constants=dict(G="G3s", NV=3, LeafLimit=8, MaxLeaves=2, MaxNot=0, NeedNot=False),
